@@ -3,6 +3,9 @@
 //! usage: harness <property> [--seed N] [--tier quick|thorough] [--shard i/n] [--out FILE] [extra…]
 mod common;
 mod c13;
+mod c14;
+mod c12;
+mod c03;
 mod c17;
 mod c07;
 mod c06;
@@ -33,6 +36,9 @@ pub fn eval_request(req: &str) -> String {
     let r = guarded(std::panic::AssertUnwindSafe(|| {
         None // one line per property module
             .or_else(|| c13::eval(op, a))
+            .or_else(|| c14::eval(op, a))
+            .or_else(|| c12::eval(op, a))
+            .or_else(|| c03::eval(op, a))
             .or_else(|| c17::eval(op, a))
             .or_else(|| c07::eval(op, a))
             .or_else(|| c06::eval(op, a))
@@ -103,6 +109,9 @@ fn main() {
             }
         }
         "C13" => c13::gen(&mut ctx),
+        "C14" => c14::gen(&mut ctx),
+        "C12" => c12::gen(&mut ctx),
+        "C03" => c03::gen(&mut ctx),
         "C17" => c17::gen(&mut ctx),
         "C07" => c07::gen(&mut ctx),
         "C06" => c06::gen(&mut ctx),
